@@ -470,7 +470,7 @@ def device_info(chk, rule: str):
     sc = Scope(mod)
     ie = repo.func(E, "import_eds", f"{chk.prop}.{rule}")
     imp_tab = exp_tab = None
-    for lp in [n for n in ast.walk(ie.node) if isinstance(n, ast.For) and isinstance(n.iter, ast.List) and isinstance(n.target, ast.Tuple) and len(n.target.elts) == 3]:
+    for lp in [n for n in ast.walk(ie.node) if isinstance(n, ast.For) and isinstance(n.iter, (ast.List, ast.Tuple)) and isinstance(n.target, ast.Tuple) and len(n.target.elts) == 3]:
         rows = []
         for el in lp.iter.elts:
             if isinstance(el, ast.Tuple) and len(el.elts) == 3:
@@ -478,7 +478,7 @@ def device_info(chk, rule: str):
         imp_tab = (rows, lp)
     ex = repo.func(E, "export_eds", f"{chk.prop}.{rule}")
     chk.saw(ex)
-    for lp in [n for n in ast.walk(ex.node) if isinstance(n, ast.For) and isinstance(n.iter, ast.List) and isinstance(n.target, ast.Tuple) and len(n.target.elts) == 2]:
+    for lp in [n for n in ast.walk(ex.node) if isinstance(n, ast.For) and isinstance(n.iter, (ast.List, ast.Tuple)) and isinstance(n.target, ast.Tuple) and len(n.target.elts) == 2]:
         rows = [(folder.try_fold(el.elts[0], sc, None), folder.try_fold(el.elts[1], sc, None)) for el in lp.iter.elts if isinstance(el, ast.Tuple) and len(el.elts) == 2]
         if rows and all(isinstance(r[0], str) for r in rows):
             exp_tab = (rows, lp)
